@@ -1,7 +1,8 @@
 """Confirm a seeded change and run checks against it.
 
   seedtest.py confirm <name> <src-dir>     verify patch/demo in a scratch worktree and store under seeded/<name>/
-  seedtest.py run <name> <check-id>...     apply seeded/<name>/patch.diff to /repo, run the checks, undo
+  seedtest.py run <name> <check-id>...     the checks against seeded/<name>/patch.diff applied in a scratch worktree (MOSROMGR_REPO)
+  seedtest.py run-inplace <name> <id>...   the same with the patch applied to /repo itself and undone straight afterwards
 """
 import os
 import sys
@@ -56,6 +57,53 @@ def confirm(name, src):
 
 
 def run(name, checks):
+    """the checks against the change: in a scratch worktree of /repo with the patch applied (MOSROMGR_REPO points the
+    checks at it), so that nothing else that reads /repo at the same time sees the change; removed afterwards.
+    `run-inplace` does the same by patching /repo itself and undoing it straight afterwards."""
+    d = os.path.join(ROOT, 'seeded', name)
+    wt = '/tmp/seedrun-' + name
+    sh('git -C %s worktree remove --force %s' % (REPO, wt))
+    rc, out = sh('git -C %s worktree add -f %s HEAD' % (REPO, wt))
+    assert rc == 0, out
+    results = {}
+    try:
+        rc, out = sh('git -C %s apply %s' % (wt, os.path.join(d, 'patch.diff')))
+        assert rc == 0, out
+        # evidence and replay files of these runs go to a scratch directory, not to /verif/evidence
+        env = dict(os.environ, MOSROMGR_REPO=wt, VERIF_EVIDENCE_DIR=wt + '-ev', VERIF_REPLAY_DIR=wt + '-rp')
+        for c in checks:
+            rc, out = sh('./check %s --tier quick' % c, cwd=ROOT, env=env)
+            results[c] = record(c, rc, out)
+    finally:
+        shutil.rmtree(wt + '-ev', ignore_errors=True)
+        shutil.rmtree(wt + '-rp', ignore_errors=True)
+        sh('git -C %s worktree remove --force %s' % (REPO, wt))
+        sh('git -C %s worktree prune' % REPO)
+    save(d, results)
+
+
+def record(c, rc, out):
+    lines = [l for l in out.split('\n') if l.startswith('VIOLATION') or l.startswith('KNOWN')]
+    what = ''
+    for l in lines:
+        if 'replay=' in l and 'no-failing-input-found' not in l:
+            p = l.split('replay=')[1].split()[0]
+            try:
+                what = json.load(open(p)).get('what', '')
+            except Exception:
+                pass
+    print(c, 'exit', rc, lines, what[:200])
+    return {'exit': rc, 'lines': lines, 'what': what}
+
+
+def save(d, results):
+    meta_p = os.path.join(d, 'meta.json')
+    meta = json.load(open(meta_p)) if os.path.exists(meta_p) else {}
+    meta.setdefault('checks_run', {}).update(results)
+    json.dump(meta, open(meta_p, 'w'), indent=1)
+
+
+def run_inplace(name, checks):
     d = os.path.join(ROOT, 'seeded', name)
     rc, out = sh('git -C %s status --porcelain' % REPO)
     assert out.strip() == '', '/repo is not clean: ' + out
@@ -65,29 +113,18 @@ def run(name, checks):
     try:
         for c in checks:
             rc, out = sh('./check %s --tier quick' % c, cwd=ROOT)
-            lines = [l for l in out.split('\n') if l.startswith('VIOLATION') or l.startswith('KNOWN')]
-            what = ''
-            for l in lines:
-                if 'replay=' in l and 'no-failing-input-found' not in l:
-                    p = l.split('replay=')[1].split()[0]
-                    try:
-                        what = json.load(open(p)).get('what', '')
-                    except Exception:
-                        pass
-            results[c] = {'exit': rc, 'lines': lines, 'what': what}
-            print(c, 'exit', rc, lines, what[:200])
+            results[c] = record(c, rc, out)
     finally:
         sh('git -C %s checkout -- .' % REPO)
     rc, out = sh('git -C %s status --porcelain' % REPO)
     assert out.strip() == '', out
-    meta_p = os.path.join(d, 'meta.json')
-    meta = json.load(open(meta_p)) if os.path.exists(meta_p) else {}
-    meta.setdefault('checks_run', {}).update(results)
-    json.dump(meta, open(meta_p, 'w'), indent=1)
+    save(d, results)
 
 
 if __name__ == '__main__':
     if sys.argv[1] == 'confirm':
         sys.exit(0 if confirm(sys.argv[2], sys.argv[3]) else 1)
+    elif sys.argv[1] == 'run-inplace':
+        run_inplace(sys.argv[2], sys.argv[3:])
     else:
         run(sys.argv[2], sys.argv[3:])
